@@ -130,10 +130,10 @@ func checkC03(c *Ctx) error {
 		return err
 	}
 	pool := newPool(12, run)
-	cfgs := []string{"Soup.quick.cfg", "Soup.quick3.cfg"}
+	cfgs := []string{"Soup.quick.cfg", "Soup.quick3.cfg", "Soup.paths.cfg"}
 	nsim := 60
 	if c.Thorough() {
-		cfgs = []string{"Soup.thorough.cfg", "Soup.thorough4.cfg"}
+		cfgs = []string{"Soup.thorough.cfg", "Soup.thorough4.cfg", "Soup.paths6.cfg"}
 		nsim = 300
 	}
 	var err error
